@@ -410,8 +410,36 @@ namespace plan
       auto i2 = std::make_shared<BodyItem>();
       i2->k = BodyItem::ASSERT;
       i2->b = rel(GEQ, k + d);
-      b2.push_back(i2);
-      std::string t2 = " " + btext(i2->b) + ";";
+      std::string t2;
+      if (op.arg(3) >= 96)
+      { // the other disjunct pushes T up INDIRECTLY, through a variable of its own: `T >= pv + d; pv >= k;` (a direct `T >= k + d`
+        // is a bound on T itself: the unit lemma recorded when T was frozen already excludes it, whatever became of the frozen bounds)
+        Op ro;
+        ro.name = "real";
+        ro.a = {0};
+        apply(ro);
+        const std::string pv = m.reals.back();
+        planted[pv] = k;
+        i2->b->r.t.push_back({mpq_class(1), Path{pv}});
+        i2->b->r.k = d;
+        m.mention_root(pv);
+        auto i3 = std::make_shared<BodyItem>();
+        i3->k = BodyItem::ASSERT;
+        auto pb = std::make_shared<B>();
+        pb->k = B::REL;
+        pb->rel = GEQ;
+        pb->l.t.push_back({mpq_class(1), Path{pv}});
+        pb->r.k = k;
+        i3->b = pb;
+        b2.push_back(i2);
+        b2.push_back(i3);
+        t2 = " " + btext(i2->b) + "; " + btext(i3->b) + ";";
+      }
+      else
+      {
+        b2.push_back(i2);
+        t2 = " " + btext(i2->b) + ";";
+      }
       if (b1.size() >= 2 && b1[1]->k == BodyItem::SUBGOAL && (op.arg(3) & 4))
       { // a goal of the same predicate in the other disjunct as well: both cost the same, so the planner takes the FIRST one (the
         // tight one, with the goal a client may later report as failed) instead of always preferring the disjunct without a goal
@@ -428,6 +456,104 @@ namespace plan
       s.k = Stmt::DISJ;
       s.item = dj;
       s.text = "{" + t1 + " } or {" + t2 + " }";
+      m.stmts.push_back(s);
+      ++order;
+    }
+    else if (n == "epin")
+    { // an atom that ends early, while the rest of the plan hangs on a disjunction whose other branch needs that atom to end much
+      // later, INDIRECTLY (through the start of another atom):
+      //   fact b = new EB(start:0.0);  b.end >= db;
+      //   { goal a = new EA(); a.start >= ka; } [1.0] or { goal c = new EC(); c.start >= kc; b.end >= c.start + dd; } [100.0]
+      // executed: b ends (possibly after a dont_end_yet), then the client reports `a` as failed: the only other plan moves the end
+      // of an atom that has already ended - no valid adaptation exists. (EXEC's X6 / an execution_exception is the right outcome)
+      if (m.unit != 0 || m.preds.size() >= 9)
+        return;
+      int pb = -1, pa = -1, pc = -1;
+      for (int i = 0; i < 3; ++i)
+      {
+        PredD p;
+        p.name = "P" + std::to_string(m.preds.size());
+        p.kind = 1;
+        if (i == 1 && (op.arg(3) & 1))
+        { // `duration >= 2.0` in the rule of a's predicate
+          auto rb = std::make_shared<B>();
+          rb->k = B::REL;
+          rb->rel = GEQ;
+          rb->l.t.push_back({mpq_class(1), Path{"duration"}});
+          rb->r.k = 2;
+          auto it = std::make_shared<BodyItem>();
+          it->k = BodyItem::ASSERT;
+          it->b = rb;
+          p.body.push_back(it);
+        }
+        (i == 0 ? pb : (i == 1 ? pa : pc)) = static_cast<int>(m.preds.size());
+        m.preds.push_back(p);
+      }
+      const mpq_class db(2 + modn(op.arg(0), 3)), ka = db + 3 + modn(op.arg(1), 4), kc = ka + 4 + modn(op.arg(2), 6), dd(5 + modn(op.arg(2), 7));
+      auto fb = std::make_shared<BodyItem>();
+      fb->k = BodyItem::SUBGOAL;
+      fb->pred = pb;
+      fb->is_fact = (op.arg(3) & 2) == 0;
+      fb->local = (fb->is_fact ? "f" : "g") + std::to_string(m.n_formulas++);
+      Arg sa;
+      sa.param = "start";
+      sa.val.k = 0;
+      fb->args.push_back(sa);
+      {
+        Stmt st;
+        st.k = Stmt::FORMULA;
+        st.item = fb;
+        st.text = std::string(fb->is_fact ? "fact " : "goal ") + fb->local + " = new " + m.preds[pb].name + "(start:0.0);";
+        m.stmts.push_back(st);
+        ++order;
+        top.nums.push_back({fb->local, "start"});
+        top.nums.push_back({fb->local, "end"});
+      }
+      auto rel = [&](const Path &l, int r, const Path *rv, const mpq_class &k)
+      {
+        auto b = std::make_shared<B>();
+        b->k = B::REL;
+        b->rel = r;
+        b->l.t.push_back({mpq_class(1), l});
+        if (rv)
+          b->r.t.push_back({mpq_class(1), *rv});
+        b->r.k = k;
+        return b;
+      };
+      assert_stmt(rel({fb->local, "end"}, GEQ, nullptr, db));
+      auto dj = std::make_shared<BodyItem>();
+      dj->k = BodyItem::DISJ;
+      std::vector<std::shared_ptr<BodyItem>> b1, b2;
+      auto sub = [&](int pred, std::vector<std::shared_ptr<BodyItem>> &br, std::string &t)
+      {
+        auto g = std::make_shared<BodyItem>();
+        g->k = BodyItem::SUBGOAL;
+        g->pred = pred;
+        g->local = "g" + std::to_string(m.n_formulas++);
+        br.push_back(g);
+        t += " goal " + g->local + " = new " + m.preds[pred].name + "();";
+        return g->local;
+      };
+      auto item = [&](const BP &b, std::vector<std::shared_ptr<BodyItem>> &br, std::string &t)
+      {
+        auto it = std::make_shared<BodyItem>();
+        it->k = BodyItem::ASSERT;
+        it->b = b;
+        br.push_back(it);
+        t += " " + btext(b) + ";";
+      };
+      std::string t1, t2;
+      const std::string a = sub(pa, b1, t1);
+      item(rel({a, "start"}, GEQ, nullptr, ka), b1, t1);
+      const std::string cc = sub(pc, b2, t2);
+      item(rel({cc, "start"}, GEQ, nullptr, kc), b2, t2);
+      const Path cstart = {cc, "start"};
+      item(rel({fb->local, "end"}, GEQ, &cstart, dd), b2, t2);
+      dj->branches = {b1, b2};
+      Stmt s;
+      s.k = Stmt::DISJ;
+      s.item = dj;
+      s.text = "{" + t1 + " } [1.0] or {" + t2 + " } [100.0]";
       m.stmts.push_back(s);
       ++order;
     }
